@@ -17,11 +17,17 @@ const rule = "topologies of 3-10 ASes (1-3 ISDs; core, parent-child, peering and
 	"packet serialized with the real slayers and walked through router.VerifProcess (external hop => neighbour's router owning the " +
 	"remote interface, sibling hop => sibling router); streams: valid | expired (hop fields whose beacon is older than their " +
 	"expiry) | perturbed (one hop field value or the first router changed: must not be delivered). " +
-	"non-trivial = the path has >= 2 segments or is a shortcut / peering path"
+	"non-trivial = the path has >= 2 segments or is a shortcut / peering path. " +
+	"Stream segment: up to 4 (thorough 12) segments per topology as registered by the real extender, re-run by the model " +
+	"(Beaconing.run over the same topology with the choices read off the run, MACs from a table of reference MACs under the " +
+	"routers' keys) and compared entry by entry; oracle beaconed_b on the real segment; non-trivial = >= 3 AS entries or peer entries"
 
 func main() {
 	netgen.Main("C02", "Prov.check02", rule, func(x *netgen.Ctx) {
 		run := x.Run
+		// path cases (Prov.case) and segment cases (BeaconCase.case) share the shards
+		run.Imports = append(run.Imports, "Model.Segment", "Model.BeaconCase")
+		run.CheckFn, run.DiagFn, run.CaseType = "BeaconCase.check", "BeaconCase.diag", "BeaconCase.xcase"
 		nWorlds := run.Count(16, 400)
 		perWorld := 16
 		if run.Tier == "thorough" {
@@ -84,8 +90,8 @@ func main() {
 			s.Path.HopMacs(w.Net, s.Walk)
 			topo, now, prov, pp := netgen.PathTerms(w, s)
 			port, ok, _ := s.Desc.L4.DstPort()
-			term := vgen.App("Prov.CPath", topo, now, s.Walk.MacsTerm(), prov, pp, netgen.RecTerm(s.Rec, port, ok),
-				vgen.N(uint64(s.StartRt)), p.MetaTerm(), vgen.B(valid), s.Walk.TraceTerm())
+			term := vgen.App("BeaconCase.XPath", vgen.App("Prov.CPath", topo, now, s.Walk.MacsTerm(), prov, pp, netgen.RecTerm(s.Rec, port, ok),
+				vgen.N(uint64(s.StartRt)), p.MetaTerm(), vgen.B(valid), s.Walk.TraceTerm()))
 			w.Tallies(run, p, s.Walk)
 			run.Tally("stream:" + stream + ":" + s.Walk.Final.Kind)
 			desc := s.Describe(w)
@@ -100,5 +106,7 @@ func main() {
 					s.Walk.Final.StopDesc, desc)
 			}
 		})
+		// segments of the real beaconing re-run by the model (after the path cases: their ids stay)
+		segCases(x, nWorlds, run.Count(4, 12))
 	})
 }
